@@ -5,7 +5,10 @@ import Oracle.Proto
 Judges the real system's counts for a batch of uniquely numbered user messages
 (`… => sent=n handled=h dead=d dup=x foreign=y`): every message is accounted for exactly once
 (`h + d = n`, `dup = 0`); messages to an address that never existed are all dead letters (`h = 0`);
-for a graceful terminate every message enqueued before the request is handled (`d = 0`, C05's clause).
+for a graceful terminate every message enqueued before the request is handled (`d = 0`, C05's clause);
+a message is a dead letter ONLY if the actor terminated or never existed before reaching it: messages sent
+through a reference that was used while nobody lived at its address are handled once an actor lives there
+(`reborn`, `d = 0`).
 -/
 namespace Oracle.DeadLetters
 
@@ -28,6 +31,7 @@ def judge : Suite where
         else if h + d < n then ((), "bad:c02-message-silently-dropped")
         else if h + d > n then ((), "bad:c02-message-both-handled-and-dead-lettered")
         else if kind == "missing" ∧ h ≠ 0 then ((), "bad:c02-handled-by-nobody")
+        else if kind == "reborn" ∧ d ≠ 0 then ((), "bad:c02-message-to-a-living-actor-became-a-dead-letter")
         else if kind == "backlog" ∧ args.getLast? == some "g" ∧ d ≠ 0 then ((), "bad:c02-graceful-terminate-dropped-queued-messages")
         else ((), "ok")
       | _, _, _, _ => ((), "bad:unparsable-output")
